@@ -32,6 +32,7 @@ Record peer_state := {
   t_queue : list (uuid * tyid * value);
   t_ctok : list (uuid * tyid * tick);   (* pushed_component_from_network: key -> change tick of the network apply *)
   t_htok : list uuid;
+  t_tomb : list uuid;              (* despawned_locally: synchronized entities this (client) peer despawned itself *)
   t_ptok : gmap uuid uuid;         (* pushed_parent_from_network: links applied from the network, not yet seen by the tracking system *)
   t_mat : bool; t_mesh : bool; t_audio : bool;
   t_promo : bool;
@@ -66,7 +67,7 @@ Record peer_state := {
 
 #[export] Instance eta_peer_state : Settable _ := settable! Build_peer_state
   <p_id; p_sync_types; p_registry; p_order; p_ents; p_reserved; p_next_ent; p_tick; p_last_run; p_cond_bit;
-   t_u2e; t_e2u; t_queue; t_ctok; t_htok; t_ptok; t_mat; t_mesh; t_audio; t_promo;
+   t_u2e; t_e2u; t_queue; t_ctok; t_htok; t_tomb; t_ptok; t_mat; t_mesh; t_audio; t_promo;
    a_store; a_events; a_ready; h_cache; d_pending; n_promote_events; p_app_cmds;
    n_setup; n_srv_transport; n_cli_transport; n_clients; n_srv_events; n_kicked; n_status; n_sticky_disconnect; n_inbox;
    s_server; s_client; s_next_server; s_next_client; p_cmdq; p_out; p_finished_events; p_panic>.
@@ -79,7 +80,7 @@ Record peer_state := {
 Definition init_peer (id : peer) (sync_types registry : list tyid) (order : list sysid) : peer_state :=
   {| p_id := id; p_sync_types := sync_types; p_registry := registry; p_order := order;
      p_ents := ∅; p_reserved := []; p_next_ent := 4294967296; p_tick := 1; p_last_run := ∅; p_cond_bit := ∅;
-     t_u2e := ∅; t_e2u := ∅; t_queue := []; t_ctok := []; t_htok := []; t_ptok := ∅;
+     t_u2e := ∅; t_e2u := ∅; t_queue := []; t_ctok := []; t_htok := []; t_tomb := []; t_ptok := ∅;
      t_mat := false; t_mesh := false; t_audio := false; t_promo := false;
      a_store := {[ akey KMaterial 0 := 500 ]}; a_events := []; a_ready := []; h_cache := ∅; d_pending := []; n_promote_events := []; p_app_cmds := [];
      n_setup := false; n_srv_transport := None; n_cli_transport := None; n_clients := []; n_srv_events := []; n_kicked := [];
@@ -420,6 +421,7 @@ Definition entity_removed_server (pr : peer_state) : peer_state :=
 Definition entity_removed_client (pr : peer_state) : peer_state :=
   let gone := filter (fun '(u, e) => negb (has_sync pr e)) (map_to_list (t_u2e pr)) in
   let pr := pr <| t_u2e := foldl (fun m '(u, _) => delete u m) (t_u2e pr) gone |> in
+  let pr := pr <| t_tomb := (gone.*1) ++ t_tomb pr |> in             (* despawned_locally.insert *)
   foldl (fun pr '(u, _) => send_up pr (MDelete u)) pr gone.
 
 Definition parent_changed (last : tick) (en : entity) : option ent :=
@@ -565,7 +567,7 @@ Definition client_received (pr : peer_state) (k : N) (m : msg) : peer_state :=
   match m with
   | MSpawn u =>
       let dup := match t_u2e pr !! u with Some e => cmd_get_entity pr e | None => false end in
-      if dup then pr
+      if memN u (t_tomb pr) || dup then pr                               (* despawned_locally: stale spawn ignored *)
       else
         let e := p_next_ent pr in
         let pr := pr <| p_next_ent := e + 1 |> <| p_reserved := e :: p_reserved pr |> in
@@ -643,7 +645,7 @@ Definition verify_client_connected (pr : peer_state) (k : N) : peer_state :=
   match n_status pr with
   | RConnected =>
       let pr := pr <| s_next_client := Some CliConnected |> in
-      if negb (t_promo pr) then push_cmd pr k CRequestInitialSync
+      if negb (t_promo pr) then push_cmd (pr <| t_tomb := [] |>) k CRequestInitialSync   (* new session: despawned_locally.clear() *)
       else pr <| t_promo := false |>
   | _ => pr
   end.
